@@ -265,25 +265,27 @@ class Walker:
         return True
 
     def _navigate(self, cur):
-        """a path of known transitions (length <= 2) from cur to an open state, or None"""
-        succ = self.succ[cur]
-        n = 0
-        for t in self.open:
-            if t in succ:
-                return [(cur, succ[t])]
-            n += 1
-            if n > 64:
-                break
-        n = 0
-        for t in self.open:
-            pred = self.pred[t]
-            small, big = (pred, succ) if len(pred) < len(succ) else (succ, pred)
-            for m in small:
-                if m in big:
-                    return [(cur, succ[m]), (m, self.succ[m][t])]
-            n += 1
-            if n > 64:
-                break
+        """shortest path of already executed transitions from cur to an open state, or None"""
+        if not self.open:
+            return None
+        prev = {cur: None}
+        queue = collections.deque([cur])
+        budget = 20000
+        while queue and budget > 0:
+            u = queue.popleft()
+            for v, oi in self.succ[u].items():
+                if v in prev:
+                    continue
+                prev[v] = (u, oi)
+                budget -= 1
+                if v in self.open:
+                    path = []
+                    while prev[v] is not None:
+                        u2, oj = prev[v]
+                        path.append((u2, oj))
+                        v = u2
+                    return path[::-1]
+                queue.append(v)
         return None
 
     def _restart_to_open(self):
@@ -535,8 +537,16 @@ class CalcSystem:
         return self.oracle[info]
 
     def key(self, calc):
+        """content key.  The buffer that is not in force is read by change() only on its undo path, which
+        is guarded by a non-empty last_undo; when last_undo is empty it is overwritten (data[:] = base[:])
+        before any cell reads it, so it is left out of the key then.  Arrays parked in `spare` are scratch
+        space handed to recycling cells, identified by their aliasing pattern only."""
+        act = int(bool(calc._switch)) if len(calc.cell_values) > 1 else 0
         bufs = []
-        for buf in calc.cell_values:
+        for bi, buf in enumerate(calc.cell_values):
+            if bi != act and not calc.last_undo:
+                bufs.append(None)
+                continue
             h = hashlib.blake2b(digest_size=8)
             for r in self.var_ranks:
                 _dig(h, buf[r])
